@@ -585,7 +585,7 @@ func (m *Model) RunMapOrder(s *Sink, rule string, fns []*ssa.Function) {
 
 // R-NONDET
 
-var nondetPkgs = map[string]bool{"math/rand": true, "math/rand/v2": true, "crypto/rand": true}
+var nondetPkgs = map[string]bool{"math/rand": true, "math/rand/v2": true, "crypto/rand": true, "hash/maphash": true}
 var nondetFuncs = map[string]bool{
 	"time.Now": true, "time.Since": true, "time.Until": true, "os.Getpid": true, "os.Getppid": true, "os.Environ": true, "os.Getenv": true, "os.LookupEnv": true, "os.Hostname": true,
 	"runtime.NumGoroutine": true, "runtime.Caller": true, "runtime.Stack": true, "runtime.NumCPU": true, "runtime.GOMAXPROCS": true,
